@@ -78,7 +78,10 @@ impl Debug for ConnectionMeta {
                    channel: {:?}, \
                    sni_auth_creds: {:?} \
                }}",
-            sni_ref, self.protocol, self.channel, self.sni_auth_creds,
+            sni_ref,
+            self.protocol,
+            self.channel,
+            self.sni_auth_creds.as_ref().map(|_| "scrubbed"),
         )
     }
 }
@@ -312,7 +315,8 @@ impl TlsDemux {
                 None,
             )
         } else {
-            return Err(format!("Unexpected SNI {}", sni));
+            // the first label may be a client's credentials meant for another host
+            return Err(format!("Unexpected SNI {}", net_utils::scrub_sni(sni)));
         };
 
         Ok(ConnectionMeta {
